@@ -28,6 +28,11 @@ def run(prop, tier):
     # a mutex that p_cond_variable_wait has released is free: a thread that only ever uses trylock must get it (sched_c03.c trypub)
     jobs.append(dict(src="harness/sched_c03.c", args=["trypub", "-p", p, "-s", 1]))
     acc = mcsched.run_jobs(prop, tier, jobs)
+    if tier == "thorough":
+        # 2^32 + 16 consecutive failing trylock calls on a held spinlock, real threads, optimised build: a lock word that counts attempts would wrap to "free"
+        import build
+        xs = dict((a, build.build_exe("count_wrap", "fast", ["harness/count_wrap.c"], atomic=a)) for a in ("c11", "sync", "sim"))
+        common.parallel(lambda a: common.run_harness(xs[a], [32, 16], acc, "count_wrap[%s] 2^32+16 failed trylock calls" % a, timeout=3000, crash_prop=prop), list(xs))
     extra = {}
     if tier == "thorough" and not acc.viols:
         extra = mcsched.conformance(acc, [j for j in jobs if j["args"][0] not in ("values", "barrier")])
